@@ -27,7 +27,7 @@ SPEC = dict(
          'distinct_nontrivial counts distinct (num_n, den_n, input class) triples of a_tf in which at least one non-empty history was judged '
          'against the reference (at most 9*9*4 = 324), plus the (num_n, den_n) pairs of the exact cancellation class, the clause classes of the float / long double companions and the (struct, order) classes of the C++ member-equivalence configuration - NOT the number of filter steps (evaluations).',
     exhaustive={'quick': None, 'thorough': None},
-    require=['tf-empty-side-with-null-storage', 'tf-lines-in-one-block-input-then-output', 'tf-lines-in-one-block-output-then-input', 'tf-coefficients-attached-before-they-are-written', 'a_tf::operator()', 'a_tf::init', 'a_tf::set_num', 'a_tf::set_den', 'a_tf::zero', 'a_lpf::gen', 'a_lpf::operator()', 'a_lpf::zero', 'a_hpf::gen', 'a_hpf::operator()', 'a_hpf::zero',
+    require=['tf-history-continued-after-output-overflow', 'tf-empty-side-with-null-storage', 'tf-lines-in-one-block-input-then-output', 'tf-lines-in-one-block-output-then-input', 'tf-coefficients-attached-before-they-are-written', 'a_tf::operator()', 'a_tf::init', 'a_tf::set_num', 'a_tf::set_den', 'a_tf::zero', 'a_lpf::gen', 'a_lpf::operator()', 'a_lpf::zero', 'a_hpf::gen', 'a_hpf::operator()', 'a_hpf::zero',
              'w-tf-init-zero-state', 'w-tf-one-step-oracle', 'w-tf-delay-lines', 'w-tf-set-zeroes-new-line', 'w-tf-zero-restores-initial-state', 'w-gen-inside-unit-interval', 'w-rc-one-step-oracle', 'tf-exact-bitwise', 'tf-exact-superposition', 'tf-exact-time-invariance', 'tf-exact-reconfig-bitwise',
              'tf-exact-cancellation-bitwise', 'tf-exact-cancellation-below-half-ulp-of-term-sum', 'tf-exact-cancellation-superposition',
              'w-tf-exact-cancellation-bitwise', 'w-tf-exact-cancellation-below-half-ulp-of-term-sum', 'w-tf-exact-cancellation-superposition',
